@@ -208,12 +208,21 @@ def expected_tree(case: dict) -> list[dict]:
 
 
 class Run:
-    def __init__(self, case: dict) -> None:
+    def __init__(self, case: dict, shared_defaults: dict | None = None) -> None:
         self.case = case
+        # hard-coded keyword arguments are module-level style defaults: the SAME objects are
+        # handed to add_component() by every instance and every start
+        self.shared_defaults = shared_defaults if shared_defaults is not None else {}
         self.created: list[tuple] = []
         self.instance_paths: dict[int, str] = {}
         self.markers: dict[str, type] = {}
         self.marker_objs: dict[tuple, Any] = {}
+
+    def hard_kwargs(self, cls_idx: int, child_idx: int, kwargs: dict) -> dict:
+        key = (cls_idx, child_idx)
+        if key not in self.shared_defaults:
+            self.shared_defaults[key] = self.thaw(kwargs)
+        return self.shared_defaults[key]
 
     def thaw(self, v: Any) -> Any:
         import verif_c14_mod as mod
@@ -265,7 +274,8 @@ def run_case(case: dict, prop: str) -> Outcome:
         out.add("config", "config:" + bucket, msg)
 
     exp = expected_tree(case)
-    run1, run2 = Run(case), Run(case)
+    shared: dict = {}
+    run1, run2, run3 = Run(case, shared), Run(case, shared), Run(case, shared)
     cfg = run1.thaw(case["ext"])
     cfg_arg = None if case.get("none_config") else cfg
     before = copy.deepcopy(cfg)
@@ -276,7 +286,7 @@ def run_case(case: dict, prop: str) -> Outcome:
     async def main() -> None:
         from asphalt.core import Context, start_component
 
-        for k, run in enumerate((run1, run2)):
+        for k, run in enumerate((run1, run2, run3)):
             mod.CURRENT = run
             # entry points are resolved through the real importlib.metadata machinery; only the
             # container's cache is reset so that every run resolves them again
@@ -284,7 +294,8 @@ def run_case(case: dict, prop: str) -> Outcome:
             try:
                 async with Context() as ctx:
                     try:
-                        comp = await start_component(root_t, cfg_arg, timeout=None)
+                        # third start: no external configuration at all (the hard-coded tree)
+                        comp = await start_component(root_t, cfg_arg if k < 2 else None, timeout=None)
                     except Exception as exc:
                         for leaf in flatten_exc(exc):
                             c = leaf.__cause__ if leaf.__cause__ is not None else leaf
@@ -374,6 +385,16 @@ def run_case(case: dict, prop: str) -> Outcome:
         elif run2.fingerprint() != got:
             disc("second-start-differs", f"a second start_component with the same configuration object built another tree: "
                  f"{[(p, c) for p, c, _ in run2.fingerprint()]} vs {[(p, c) for p, c, _ in got]}")
+        elif "error2" in state:
+            disc("start-raised:" + type(state["error2"]).__name__, f"start_component without external configuration raised {short_exc(state['error2'])}")
+        else:
+            # equal configurations yield equal trees: after a start WITH overrides, a start WITHOUT
+            # any must still build the purely hard-coded tree (defaults are shared objects)
+            plain = expected_tree(dict(case, ext={}))
+            want3 = sorted([(e["path"], e["cls"], _canon(run1.thaw(e["kwargs"]))) for e in plain], key=lambda x: (x[0], x[1], repr(x[2])))
+            if run3.fingerprint() != want3:
+                disc("defaults-polluted", f"after a start with external overrides, a start without any built {run3.fingerprint()!r}, "
+                     f"expected the hard-coded tree {want3!r}")
 
     depth = max(e["path"].count(".") + (1 if e["path"] else 0) for e in exp)
     both_dicts = _has_dict_collision(case)
